@@ -52,6 +52,9 @@ enum Mut {
     ZeroReplySerial,
     /// body replaced by seeded garbage of this length under the original signature
     GarbageBody(u16, u32),
+    /// an extra header field (code) whose value nests this many containers of a kind
+    /// (0 structs, 1 arrays, 2 variants, 3 alternating struct/array) around a byte
+    DeepField(u8, u8, u8),
 }
 
 #[derive(Clone, Debug, Serialize, Deserialize, PartialEq)]
@@ -145,6 +148,20 @@ fn build(item: &Item, idx: usize, pending_serial: u32) -> Vec<u8> {
                 let mut r = Rng::new(*seed as u64);
                 m.body = r.bytes(*len as usize);
             }
+            Mut::DeepField(code, depth, kind) => {
+                let mut v = Val::Byte(1);
+                for d in 0..*depth {
+                    v = match (kind % 4, d % 2) {
+                        (0, _) | (3, 0) => Val::Struct(vec![v]),
+                        (1, _) | (3, 1) => {
+                            let sig = v.sig();
+                            Val::Array(sig, vec![v])
+                        }
+                        _ => Val::Variant(Box::new(v)),
+                    };
+                }
+                m.fields.push((*code, v));
+            }
             other => post.push(other),
         }
     }
@@ -202,7 +219,7 @@ fn build(item: &Item, idx: usize, pending_serial: u32) -> Vec<u8> {
 }
 
 fn gen_mut(rng: &mut Rng) -> Mut {
-    match rng.below(16) {
+    match rng.below(17) {
         0..=2 => Mut::FieldStr(rng.below(6) as u8, if rng.chance(1, 10) { 254 + rng.below(2) as u8 } else { rng.below(BAD_STRINGS.len() as u64) as u8 }),
         3..=4 => Mut::FieldType(rng.below(9) as u8, rng.below(6) as u8),
         5 => Mut::DropField(rng.below(9) as u8),
@@ -218,6 +235,7 @@ fn gen_mut(rng: &mut Rng) -> Mut {
             _ => Mut::ZeroReplySerial,
         },
         14 => Mut::Fds(*rng.pick(&[1u32, 2, 1000, u32::MAX])),
+        15 => Mut::DeepField(*rng.pick(&[1u8, 8, 10, 77, 200]), rng.range(28, 34) as u8 + if rng.chance(1, 4) { 31 } else { 0 }, rng.below(4) as u8),
         _ => Mut::GarbageBody(rng.range(0, 80) as u16, rng.next_u64() as u32),
     }
 }
@@ -227,7 +245,7 @@ impl Scenario for C12Scn {
         "C12"
     }
     fn rule(&self) -> &'static str {
-        "a hostile raw peer sends 1..6 messages of all four types (both endiannesses, 6 body shapes) to a live connection and corrupts them with 1..3 operators each: hostile strings in header fields (invalid paths / names, empty, 300 bytes), header fields of the wrong type, missing / duplicated fields, invalid / deep / mismatching body signatures, bit flips in the fields region and in the body, body-length and fields-array-length edits that keep the frame length consistent, endianness / version / flag / type bytes, fd counts without fds, reply serial 0, garbage bodies; the connection has an unfiltered consumer that reads every header accessor, deserializes the body, formats Display and Debug, three rule streams whose matching deserializes arguments, an object server (calls with garbage arguments reach generated dispatch code) and a pending method call (garbage error replies are converted to errors); oracle: no task panics - errors and a dead connection are fine; non-trivial = at least one corrupted message was completely read by the framer (reached the parser); this does not cover 'every byte string', only corruption of a live stream"
+        "a hostile raw peer sends 1..6 messages of all four types (both endiannesses, 6 body shapes) to a live connection and corrupts them with 1..3 operators each: hostile strings in header fields (invalid paths / names, empty, 300 bytes), header fields of the wrong type, missing / duplicated fields, invalid / deep / mismatching body signatures, header field values nested 28..65 containers deep (structs, arrays, variants: around the decoder's depth limits), bit flips in the fields region and in the body, body-length and fields-array-length edits that keep the frame length consistent, endianness / version / flag / type bytes, fd counts without fds, reply serial 0, garbage bodies; the connection has an unfiltered consumer that reads every header accessor, deserializes the body, formats Display and Debug, three rule streams whose matching deserializes arguments, an object server (calls with garbage arguments reach generated dispatch code) and a pending method call (garbage error replies are converted to errors); oracle: no task panics - errors and a dead connection are fine; non-trivial = at least one corrupted message was completely read by the framer (reached the parser); this does not cover 'every byte string', only corruption of a live stream"
     }
     fn runs(&self, tier: Tier) -> u64 {
         match tier {
